@@ -34,6 +34,7 @@ type anchors struct {
 	acquire    []*ssa.Function
 	release    []*ssa.Function
 	problems   []string
+	mxCands    []*types.Var
 }
 
 func (e *Env) anchors() *anchors {
@@ -85,10 +86,11 @@ func (e *Env) anchors() *anchors {
 			if len(mxs) == 1 {
 				a.slotMutex = mxs[0]
 			}
+			a.mxCands = mxs
 		}
 	}
 	need(a.slotField != nil, "slot channel (unique chan field of Workflow)")
-	need(a.slotMutex != nil, "slot mutex (unique sync.Mutex field of Workflow)")
+
 	// streaming flag: the only bool field of FileIP
 	if ip := p.Named("scipipe", "FileIP"); ip != nil {
 		if st, ok := ip.Underlying().(*types.Struct); ok {
@@ -100,6 +102,9 @@ func (e *Env) anchors() *anchors {
 			}
 			if len(bools) == 1 {
 				a.streamFld = bools[0]
+			} else if len(bools) > 1 {
+				// several flags: the streaming flag is the one that decides whether Process.Run creates a FIFO
+				a.streamFld = a.e.flagGuardingFifo(bools)
 			}
 		}
 	}
@@ -159,7 +164,75 @@ func (e *Env) anchors() *anchors {
 			}
 		}
 	}
+	// several mutexes in Workflow: the slot mutex is the one the acquire function locks
+	if a.slotMutex == nil && len(a.mxCands) > 1 {
+		for _, fn := range a.acquire {
+			for f := range p.Reachable(fn) {
+				if !p.IsLib(f) {
+					continue
+				}
+				for _, b := range f.Blocks {
+					for _, in := range b.Instrs {
+						c, ok := in.(*ssa.Call)
+						if !ok || c.Call.StaticCallee() == nil || c.Call.StaticCallee().String() != "(*sync.Mutex).Lock" || len(c.Call.Args) == 0 {
+							continue
+						}
+						if fa, ok := c.Call.Args[0].(*ssa.FieldAddr); ok {
+							for _, m := range a.mxCands {
+								if fieldOfAddr(fa) == m && a.slotMutex == nil {
+									a.slotMutex = m
+								}
+							}
+						}
+					}
+				}
+			}
+		}
+	}
+	need(a.slotMutex != nil, "slot mutex (the sync.Mutex field of Workflow that the acquire function locks)")
 	return a
+}
+
+// flagGuardingFifo: among several bool fields of FileIP, the one whose value decides, in Process.Run, whether
+// CreateFifo is called for an out-IP.
+func (e *Env) flagGuardingFifo(cands []*types.Var) *types.Var {
+	run := e.P.DeclaredMethod("scipipe", "Process", "Run")
+	if run == nil {
+		return nil
+	}
+	g := e.XG(run)
+	if g == nil {
+		return nil
+	}
+	for _, n := range g.Nodes {
+		if n.Callee == nil || core.FuncName(n.Callee) != "(*FileIP).CreateFifo" || n.Kind == core.KAfter {
+			continue
+		}
+		for _, gd := range g.Guards(n, e.symbolizer()) {
+			var hit *types.Var
+			gd.Cond.Walk(func(z *core.Sym) bool {
+				if z.Op == "field" && z.Val != nil {
+					if f := fieldOfLoad(z.Val); f != nil {
+						for _, c := range cands {
+							if c == f {
+								hit = c
+							}
+						}
+					}
+				}
+				return hit == nil
+			})
+			if hit != nil {
+				return hit
+			}
+		}
+	}
+	for _, c := range cands {
+		if c.Name() == "doStream" {
+			return c
+		}
+	}
+	return nil
 }
 
 // ok reports unresolved anchors on the report (as an undecided obligation) and returns false if any.
